@@ -21,7 +21,7 @@ def c14(tier):
     if not r.violation:
         raise Inconclusive("LazyInit.tla does not exhibit the race of an unsynchronised getter")
     dck = Check("C14", tier)
-    defs, _ = p_check.oracle("quick", ["rw"], dck, sample=1, ords=1)
+    defs, _ = p_check.oracle("quick", ["rw", "ord"], dck, sample=1, ords=1)
     ck.states += dck.states; ck.transitions += dck.transitions
     rounds, par = (24, 16) if tier == "quick" else (160, 48)
     inp = {"def": defs["rw"], "states": [s for s in STATES if s], "queries": [q for q, c in QUERIES if c == "valid"], "rounds": rounds, "par": par}
@@ -29,6 +29,21 @@ def c14(tier):
     sc = scratch()
     recs = run_harness(binary, "conc", inp, shards=8, tolerate_crash=True, timeout=2400,
                        env_extra={"GORACE": "halt_on_error=0 history_size=5"})
+    # the same rounds over the family whose permissions declare their operands most-expensive-first (an implementation that
+    # reorders or caches per-relation plans does it on the first evaluations, which here are concurrent)
+    ord_states = [[1, 2, 3, 4, 5, 6, 7, 8], [2, 3, 4, 6], [1, 4, 5], [3, 4, 6, 7], [1, 2, 3]]
+    inp_ord = dict(inp, **{"def": defs["ord"], "states": ord_states, "queries": defs["ord"]["Q"], "rounds": rounds // 2})
+    recs_ord = run_harness(binary, "conc", inp_ord, shards=8, tolerate_crash=True, timeout=2400,
+                           env_extra={"GORACE": "halt_on_error=0 history_size=5"})
+    n_ord = sum(1 for x in recs_ord if "round" in x)
+    if n_ord < rounds // 2 and not lib.CRASHED:
+        raise Inconclusive("only %d of %d rounds over the expensive-first family ran" % (n_ord, rounds // 2))
+    ck.extra["rounds_over_permissions_declared_expensive_first"] = n_ord
+    # (their cancel / mixed rounds count with the others; the read-only rounds are evaluated below under ids >= 1000)
+    for x in recs_ord:
+        if "round" in x:
+            x["round"] += 1000
+    recs_ord = [x for x in recs_ord if "cancel_round" not in x and "mixed" not in x and "burst_round" not in x]
     # race reports are in the shard logs
     races = []
     for lf in glob.glob(os.path.join(sc, "in_conc_*.log")):
@@ -53,6 +68,7 @@ def c14(tier):
     if len(lib.CRASHED) > len(crashed_before) and not races:
         raise Inconclusive("conc harness (plain binary) failed: %s" % lib.CRASHED[-1][2][-1500:])
     recs = recs + [x for x in recs2 if "cancel_round" in x or "burst_round" in x]
+    recs = recs + recs_ord
     want_cancel = rounds // 3 + rounds
     got = 0
     mixed = 0
@@ -76,7 +92,8 @@ def c14(tier):
             for d in x["diffs"] or []:
                 ck.violation("a request answered differently from the same request run alone, %s" % d.get("phase", ""), dict(d, round=x["cancel_round"]))
             continue
-        got += 1
+        if x["round"] < 1000:
+            got += 1
         ck.evaluations += x["requests"]
         for d in x["diffs"] or []:
             ck.violation("a request answered differently when run concurrently with others", dict(d, round=x["round"]))
